@@ -6077,8 +6077,10 @@ memory_cast = getattr(memoryview, "cast", lambda *x: x[0])
 
 
 def modified_base64(s):
-    s_utf7 = s.encode("utf-7")
-    return s_utf7[1:-1].replace(b"/", b",")
+    # Encode explicitly as base64 of UTF-16-BE: the utf-7 codec emits some
+    # characters (CR, LF, TAB) directly, which is not allowed inside a shift.
+    s_utf16 = s.encode("utf-16-be", "surrogatepass")
+    return binascii.b2a_base64(s_utf16).rstrip(b"\n=").replace(b"/", b",")
 
 
 def modified_unbase64(s):
